@@ -217,7 +217,7 @@ func c04Server(rc *core.RunCtx) {
 	if e.WaitLeader(20*time.Second) == nil {
 		rc.Note("no leader within 20s")
 		if !faults {
-			rc.Violate("c04.liveness", "no-leader-fault-free", "no leader elected within 20 s without faults")
+			rc.Anomaly("liveness: no-leader-fault-free: " + "no leader elected within 20 s without faults")
 		}
 		return
 	}
@@ -280,7 +280,7 @@ func c04Server(rc *core.RunCtx) {
 		simrt.Sleep(200 * time.Millisecond)
 	}
 	if !ok && len(rc.Viol) == 0 {
-		rc.Violate("c04.liveness", "no-alloc-after-quiesce", "no id could be allocated within 30 s after faults stopped")
+		rc.Anomaly("liveness: no-alloc-after-quiesce: " + "no id could be allocated within 30 s after faults stopped")
 	}
 	rc.Nontrivial = rc.Extra["alloc_ok"] > 0 && (e.FaultsFired() || nClients > 1)
 	rc.Note("server: nodes=%d clients=%d allocs=%d errs=%d extensions=%d crashes=%d nemesis=%v", len(e.W.Nodes), nClients, rc.Extra["alloc_ok"], rc.Extra["alloc_err"], rc.Extra["window_extensions"], e.Crashes, e.NemKinds)
